@@ -3,6 +3,10 @@
 For every function defined under src/ (tests excluded):
   * calls        — direct callees, and calls through the three allocator hooks (_cbor_malloc, _cbor_realloc, _cbor_free)
   * allocator call sites with the text of their size arguments
+  * const locals — block-scope variables of a `const`-qualified non-pointer type with an initialiser, whose name is declared
+                   only once in the function (no parameter or other local of that name) and which are passed as an argument of an
+                   allocator call site listed above: (function, name, text of the initialiser).
+                   Pure extraction; C20 uses it to read an allocator argument `n` as the expression `n` was initialised with.
   * item stores  — assignments / ++ / -- / compound assignments / memcpy-memset-memmove destinations whose target is reached
                    through a pointer and has a non-byte type (item headers, slot arrays, pairs, metadata, chunk bookkeeping ...)
                    i.e. everything except writes into `unsigned char` / `char` output buffers and into locals
@@ -123,10 +127,14 @@ class Census:
     def func(self, cfile, path, fn):
         name = fn['name']
         info = {'file': os.path.relpath(path, self.repo), 'calls': set(), 'hooks': [], 'stores': set(), 'gwrites': set(), 'greads': set(),
-                'statics': [], 'other': set(), 'params': [], 'returns': qual(fn).split('(')[0].strip()}
+                'statics': [], 'other': set(), 'params': [], 'returns': qual(fn).split('(')[0].strip(), 'constlocals': []}
+        declared = []      # every name declared in the function (parameters and locals, all scopes), with repetitions
+        const_cand = []    # (name, initialiser text) of const-qualified, non-pointer, non-static, initialised locals
+        alloc_arg_names = set()   # variables passed, as a whole argument, to an allocator hook / *_multiple helper
         params = {}
         for c in fn.get('inner', []):
-            if c.get('kind') == 'ParmVarDecl': params[c.get('name', '')] = qual(c); info['params'].append((c.get('name', ''), qual(c)))
+            if c.get('kind') == 'ParmVarDecl':
+                params[c.get('name', '')] = qual(c); info['params'].append((c.get('name', ''), qual(c))); declared.append(c.get('name', ''))
         locals_ = set()
 
         def lhs_store(e, why):
@@ -145,7 +153,13 @@ class Census:
             k = e.get('kind')
             if k == 'VarDecl':
                 locals_.add(e.get('name'))
+                declared.append(e.get('name'))
                 if e.get('storageClass') == 'static': info['statics'].append(e.get('name'))
+                else:
+                    qt = e.get('type', {}).get('qualType', '')
+                    init = [x for x in e.get('inner', []) if not x.get('kind', '').endswith('Attr')]
+                    if qt.startswith('const ') and '*' not in qt and '[' not in qt and init:
+                        const_cand.append((e.get('name'), source_text(self.srccache, path, init[0].get('range', {}))))
             if k == 'DeclRefExpr':
                 rd = e.get('referencedDecl', {})
                 if rd.get('kind') == 'FunctionDecl' and id(e) not in callee_nodes:
@@ -161,6 +175,9 @@ class Census:
                     if cname in HOOKS or cname in ('_cbor_alloc_multiple', '_cbor_realloc_multiple'):
                         args = [source_text(self.srccache, path, a.get('range', {})) for a in e['inner'][1:]]
                         info['hooks'].append((cname, args))
+                        for a in e['inner'][1:]:
+                            sa = strip(a)
+                            if sa.get('kind') == 'DeclRefExpr': alloc_arg_names.add(sa.get('referencedDecl', {}).get('name'))
                     if cname in ('memcpy', 'memset', 'memmove', 'strcpy', 'strncpy') and len(e['inner']) > 1:
                         d = strip(e['inner'][1])
                         pt = qual(d)
@@ -176,6 +193,7 @@ class Census:
 
         for c in fn.get('inner', []):
             if c.get('kind') == 'CompoundStmt': visit(c)
+        info['constlocals'] = [(n, t) for n, t in const_cand if declared.count(n) == 1 and n in alloc_arg_names]
         self.funcs[name] = info
 
 
@@ -226,6 +244,8 @@ def generate(repo, cfgdir):
          '/-- allocator call sites: (function, callee, argument texts) -/',
          'def allocSites : List (String × String × List String) := [' + ',\n  '.join('(%s, %s, [%s])' % (lean_str(f), lean_str(c), ', '.join(lean_str(a) for a in args))
                                                                                      for f in fs for c, args in C.funcs[f]['hooks']) + ']', '',
+         '/-- `const`-qualified non-pointer locals with an initialiser, declared exactly once (by name) in the function and passed as an argument at one of the allocator call sites above: (function, local, initialiser text) -/',
+         'def constLocals : List (String × String × String) := [' + ',\n  '.join('(%s, %s, %s)' % (lean_str(f), lean_str(n), lean_str(t)) for f in fs for n, t in C.funcs[f]['constlocals']) + ']', '',
          '/-- ids of functions all of whose item parameters are `const cbor_item_t *` and which do not return an item: the read-only API surface -/',
          'def constItemApi : List Nat := ' + ids([f for f in fs if readonly_sig(C.funcs[f])]), '',
          'end Gen.Effects', '']
